@@ -8,7 +8,7 @@ Tie:   PROGRAM correspondence.  The real library (configurations B: C++17 and BC
 Oracle (property text only, independent of the model): blocks <= executed pipeline steps; a combinator needs no more
        blocks for n in 17..64 than the largest count seen for n <= 16; Wait/WaitFor/WaitUntil on futures, Get,
        Strand::Submit(job) and co_await of futures: 0 blocks."""
-import collections, concurrent.futures, hashlib, json, os, random, re, subprocess, sys, time
+import collections, concurrent.futures, hashlib, json, os, random, re, shutil, subprocess, sys, time
 import vlib, runner
 
 NSHARDS = 16
@@ -36,9 +36,23 @@ def build_harness(cfg):
     if os.path.exists(exe):
         os.utime(d, None)
         return exe, dict(hash=th)
-    b = vlib.build(cfg)
-    flags = [f for f in b["cxx"] if f != "-g"]
     os.makedirs(d, exist_ok=True)
+    # private copy of the headers and the library: the shared cache entry can be pruned while the shards compile
+    inc, binc, lib = os.path.join(d, "include"), os.path.join(d, "binclude"), os.path.join(d, "libyaclib.a")
+    b = None
+    for attempt in range(4):
+        b = vlib.build(cfg)
+        try:
+            for x in (inc, binc):
+                subprocess.run(["rm", "-rf", x])
+            shutil.copytree(os.path.join(b["src"], "include"), inc)
+            shutil.copytree(os.path.join(b["build"], "include"), binc)
+            shutil.copy2(b["lib"], lib)
+            break
+        except (OSError, shutil.Error):
+            if attempt == 3:
+                raise vlib.BuildError("the build of %s disappeared from the shared cache while it was being copied" % cfg)
+    flags = flags0 + ["-I" + inc, "-I" + binc]
     # keep the cache small
     try:
         ents = sorted((os.path.join(OWN_CACHE, e) for e in os.listdir(OWN_CACHE)), key=os.path.getmtime, reverse=True)
@@ -60,7 +74,7 @@ def build_harness(cfg):
                 raise vlib.BuildError("harness h_c20 (shard %d) failed to compile in %s:\n%s" % (k, cfg, out[-8000:]))
             objs.append(o)
     tmp = exe + ".tmp%d" % os.getpid()
-    r = vlib.sh(["g++"] + objs + [b["lib"], "-lpthread", "-o", tmp])
+    r = vlib.sh(["g++"] + objs + [lib, "-lpthread", "-o", tmp])
     if r.returncode != 0:
         raise vlib.BuildError("harness h_c20 failed to link in %s:\n%s" % (cfg, r.stdout[-8000:]))
     os.rename(tmp, exe)
